@@ -242,7 +242,7 @@ func checkC14(c *core.Ctx) []core.Floor {
 	for _, cs := range c14Causes {
 		fl = append(fl, core.Floor{Key: "cause_" + cs, Min: 5})
 	}
-	fl = append(fl, core.Floor{Key: "cause_update-fixed-width-overflow", Min: 5}, core.Floor{Key: "insert_failing_row_k1", Min: 5}, core.Floor{Key: "insert_failing_row_k>1", Min: 5}, core.Floor{Key: "update_overflow_k>1", Min: 1})
+	fl = append(fl, core.Floor{Key: "cause_update-fixed-width-overflow", Min: 5}, core.Floor{Key: "cause_where-error-on-later-row", Min: 5}, core.Floor{Key: "insert_failing_row_k1", Min: 5}, core.Floor{Key: "insert_failing_row_k>1", Min: 5}, core.Floor{Key: "update_overflow_k>1", Min: 1})
 	return fl
 }
 
@@ -299,6 +299,37 @@ func runC14(c *core.Ctx, drv string, idx int) {
 				v := map[string]proto.Val{"n": proto.Int(7), "b": proto.Int(1 << 40), "f": proto.Bool(true)}[col]
 				fwFail = &failStmt{cause: "update-fixed-width-overflow", k: kth, n: nrows,
 					st: &proto.Stmt{Kind: "update", Table: "fw", Sets: []proto.SetItem{{Col: col, Val: v}}}}
+			}
+		}
+	}
+	// a WHERE clause whose evaluation fails on a later row only: an ordering
+	// comparison meets a NULL in the k-th row after earlier rows matched
+	if idx%3 == 1 {
+		ct := &proto.Stmt{Kind: "create", Table: "wn", Defs: []proto.ColDef{{Name: "k", Type: "int"}, {Name: "g", Type: "int"}, {Name: "n", Type: "int"}, {Name: "s", Type: "varchar", Len: 20}}}
+		if f, _, _, err := h.DB.Apply(ct); f == "" && err == nil {
+			add(proto.Op{K: "stmt", Stmt: ct}, meta{kind: "stmt", st: ct})
+			ins := &proto.Stmt{Kind: "insert", Table: "wn"}
+			nrows := r.Range(3, 12)
+			kth := r.Range(2, nrows)
+			for i := 1; i <= nrows; i++ {
+				row := []proto.Val{proto.Int(int64(i)), proto.Int(1), proto.Int(int64(10 * i)), proto.Str("v")}
+				if i == kth {
+					row[2], row[3] = proto.Null(), proto.Null()
+				}
+				ins.Rows = append(ins.Rows, row)
+			}
+			if f, _, _, err := h.DB.Apply(ins); f == "" && err == nil {
+				add(proto.Op{K: "stmt", Stmt: ins}, meta{kind: "stmt", st: ins})
+				col, lit := "n", proto.Int(5)
+				if r.Bool() {
+					col, lit = "s", proto.Str("a")
+				}
+				w := model.Cmp([]string{">", ">=", "<", "<="}[r.Intn(4)], model.ColOp(col), model.LitOp(lit))
+				st := &proto.Stmt{Kind: "delete", Table: "wn", Where: w}
+				if r.Bool() {
+					st = &proto.Stmt{Kind: "update", Table: "wn", Sets: []proto.SetItem{{Col: "g", Val: proto.Int(9)}}, Where: w}
+				}
+				fwFail = &failStmt{cause: "where-error-on-later-row", k: kth, n: nrows, st: st}
 			}
 		}
 	}
